@@ -108,6 +108,7 @@ Outcome roundtrip(Json const& plan)
     if (v == "gray1") return RoundTrip<Tag, gray1_t, false, false, 0x3u>::run(plan, "pnm", info);
     if (v == "gray8") return RoundTrip<Tag, gil::gray8_image_t, false>::run(plan, "pnm", info);
     if (v == "rgb8") return RoundTrip<Tag, gil::rgb8_image_t, true>::run(plan, "pnm", info);
+    if (v == "bgr8") return RoundTrip<Tag, gil::bgr8_image_t, true>::run(plan, "pnm", info);
     Outcome o; o.cls = "skipped:type"; return o;
 }
 
@@ -135,7 +136,7 @@ Format make_format()
     f.native_types = {"gray1", "gray8", "rgb8"};
     f.convert_types = {"gray8", "rgb8", "rgba8"};
     f.devices = {"FILE", "istream", "name"};
-    f.write_types = {"gray1", "gray8", "rgb8"};
+    f.write_types = {"gray1", "gray8", "rgb8", "bgr8"};
     f.roundtrip = roundtrip; f.paths = paths;
     f.make = make; f.read = read; f.fields = fields; f.declared_pixels = declared;
     return f;
